@@ -332,7 +332,7 @@ func allTags() []*tnode {
 		{"#highway", "path"}, {"name", "The Lighterman"}, {"@amenity", "cafe"}, {"addr:street", "Yes:no_1-2"}, {"#nhs:hospital", "yes"}, {"Name", "日本"},
 		{"addr:housenumber", "12"}, {"layer", "-1"}, {"k", "_x"}, {"k", " "}, {"k", "é"}, // first (or only) character is not a letter
 		{"k", ""},                           // empty value
-		{"name", `say "hi"`}, {"k", "a\\b"}, // quoted and needs escapes
+		{"name", `say "hi"`}, {"k", "a\\b"}, {"dir", `C:\`}, // quoted and needs escapes
 	} {
 		out = append(out, tagLeaf(kv[0], kv[1]))
 	}
